@@ -376,23 +376,24 @@ Proof.
         * unfold am in *; cbn in *; congruence.
         * intros _. split; auto. destruct (ablocks a); discriminate.
     - destruct (T5 eq_refl) as [-> L]. split.
-      + apply ainv_intro; auto. eapply linv_perm; [|exact I5]. permp.
-      + sp; cbn; auto; try discriminate.
-        * right. exists bs, st. rewrite AM. reflexivity.
-        * intros Fz. destruct (CF Fz); discriminate. }
+      + apply ainv_intro; auto. eapply linv_perm; [|exact I5]. unfold am, a1' in *; cbn [alist] in *. permp.
+      + sp; cbn; auto; try discriminate; try (intros Fz; destruct (CF Fz); discriminate).
+        right. exists bs, st. rewrite AM. reflexivity. }
   match type of H with (match ?r with _ => _ end) = _ => destruct r as [[h5 a2] okr] eqn:ER end.
-  apply R in ER. destruct ER as [[[Wl2 Wb2] I5] [AM2 [BS2 [HD2 [LK [OKL FZ]]]]]].
+  destruct (R _ _ _ eq_refl) as [[[Wl2 Wb2] I5] [AM2 [BS2 [HD2 [LK [OKL FZ]]]]]].
   destruct okr.
-  2:{ inversion H; subst. sp; auto; try discriminate. intros Fz. destruct (FZ Fz); discriminate. }
+  2:{ inversion H; subst. split; [split; [split; auto|auto]|].
+      sp; auto; try discriminate. intros Fz. destruct (FZ Fz); discriminate. }
   destruct (OKL eq_refl) as [LK2 NE].
   destruct (alloc (am a2) TAG_BYTE osz h5) as [h6 [o|]] eqn:A3; inversion H; subst; clear H.
-  - sp; cbn; auto; try discriminate.
-    + intros E0; contradiction.
-    + unfold aowned. cbn [alist ablocks aleak am]. pose proof (linv_alloc _ _ _ _ _ _ _ I5 A3) as A3'.
-      eapply linv_perm; [|exact A3']. unfold aowned.
+  - split.
+    + split; [split; [exact Wl2 | intros E0; contradiction]|].
+      pose proof (linv_alloc _ _ _ _ _ _ _ I5 A3) as A3'.
+      eapply linv_perm; [|exact A3']. unfold aowned. cbn [alist ablocks aleak am].
       rewrite (add_obj_perm (lm (alist a2)) (ablocks a2) o NE). unfold am. permp.
-  - sp; auto; try discriminate.
-    + eapply linv_throw; eauto.
-    + intros Fz. destruct (FZ Fz) as [_ F5]. destruct (alloc_nofuse (am a1) TAG_BYTE osz h5 F5) as [hx [Ax _]].
-      rewrite Ax in A3. inversion A3.
+    + sp; cbn; auto; try discriminate.
+  - split.
+    + split; [split; auto|]. eapply linv_throw; eauto.
+    + sp; auto; try discriminate. intros Fz. destruct (FZ Fz) as [_ F5].
+      destruct (alloc_nofuse (am a1) TAG_BYTE osz h5 F5) as [hx [Ax _]]. rewrite Ax in A3. inversion A3.
 Qed.
